@@ -192,6 +192,31 @@ def chain_mask(rng, k, length=None):
     return mask
 
 
+_BIG = {}
+
+
+def big_graph(k, seed, t=2, density=0.82):
+    """rows of a LARGE coding graph (order 8..10: 65536 .. 1048576 vertices, vertex ids beyond every 16-bit range): a random
+    vertex mask trimmed to the largest sub-graph with minimum out-degree t, computed with NumPy (this only shapes the input).
+    Deterministic in (k, seed); cached per process."""
+    key = (k, seed, t, density)
+    if key not in _BIG:
+        import numpy as np
+        n = 4 ** k
+        r = np.random.RandomState(seed)
+        alive = r.random_sample(n) < density
+        succ = ((np.arange(n, dtype=np.int64)[:, None] * 4) % n) + np.arange(4, dtype=np.int64)[None, :]
+        while True:
+            new = alive & (alive[succ].sum(axis=1) >= t)
+            if (new == alive).all():
+                break
+            alive = new
+        rows = np.where(alive[:, None] & alive[succ], succ, -1)
+        _BIG.clear()                                # keep one at a time (tens of MB each)
+        _BIG[key] = rows.tolist()
+    return _BIG[key]
+
+
 def wellformed_subset(rng, k):
     """arc subset in which every vertex reachable from a live vertex is live and reaches a branching vertex:
     start from a generated coding graph for t = 1 and delete arcs while that stays true."""
